@@ -70,6 +70,10 @@ func RandomPELayout(r *rand.Rand, i int) PELayout {
 	if r.Intn(2) == 0 {
 		l.Trailing = 1 + r.Intn(64)
 	}
+	if i%13 == 6 {
+		// a long tail behind the last section (stub + appended payload): around 64 KiB and beyond
+		l.Trailing = []int{65529, 65536, 65537, 70000, 131072, 140001}[(i/13)%6]
+	}
 	switch r.Intn(4) {
 	case 0:
 		l.CertTable = 8 * (1 + r.Intn(40))
